@@ -96,7 +96,12 @@ func normEdge(s string) string {
 	return sb.String()
 }
 
+// reAlt: in an image description a line ending has become a space, so the kept line-edge spaces (deviation LineEdgeSpace) are a
+// run of spaces inside the alt attribute: runs are collapsed there, on both sides.
+var reAlt = regexp.MustCompile(`alt="[^"]*"`)
+
 func normEdgePiece(s string) string {
+	s = reAlt.ReplaceAllStringFunc(s, func(a string) string { return reSpaces.ReplaceAllString(a, " ") })
 	s = reEdge.ReplaceAllString(s, "$1")
 	return reBlockEnd.ReplaceAllString(s, "$1")
 }
